@@ -48,7 +48,7 @@ func dedupeCI(names []string) []string {
 
 func identTree(g *exprGen, depth int) *model.Node {
 	r := g.r
-	ids := []string{"a", "A", "b", "B", "abc", "Abc", "ABC", "x1", "_y", "Min", "min", "sum", "\"a\"", "\"two words\"", "\"AND\"", "é", "É", "iff", "nulls", "ins"}
+	ids := []string{"a", "A", "b", "B", "abc", "Abc", "ABC", "x1", "_y", "Min", "min", "sum", "\"a\"", "\"two words\"", "\"AND\"", "é", "É", "iff", "nulls", "ins", "tk", "t\u212a", "TK"}
 	fns := []string{"Min", "min", "MAX", "Sum", "a", "abc", "f", "Array", "If"}
 	if depth <= 0 || r.Chance(1, 5) {
 		switch r.Intn(6) {
@@ -155,7 +155,7 @@ func c18ExprExec(c *mon.Case) {
 
 var c18Names = []string{"a", "A", "b"}
 
-const c18OpCount = 14
+const c18OpCount = 15
 
 func c18OpName(op int) string {
 	switch {
@@ -174,7 +174,10 @@ func c18OpName(op int) string {
 	case op == 12:
 		return "ClearValues()"
 	}
-	return "SetValue(first)"
+	if op == 13 {
+		return "SetValue(first)"
+	}
+	return "last.Value().SetAsInteger(fresh)"
 }
 
 type c18Entry struct {
@@ -280,7 +283,7 @@ func c18Run(c *mon.Case, ops string, kind string) {
 				for i := range model {
 					model[i].val = 0
 				}
-			default:
+			case op == 13:
 				if kind != "variables" || len(model) == 0 {
 					skip = true
 					return
@@ -288,6 +291,16 @@ func c18Run(c *mon.Case, ops string, kind string) {
 				nextID++
 				realVars[model[0].id].SetValue(variants.VariantFromInteger(nextID))
 				model[0].val = nextID
+			default:
+				// in-place update of the value object of the last variable: every variable owns its value
+				if kind != "variables" || len(model) == 0 {
+					skip = true
+					return
+				}
+				nextID++
+				k := len(model) - 1
+				realVars[model[k].id].Value().SetAsInteger(nextID)
+				model[k].val = nextID
 			}
 		})
 		if pn != nil {
